@@ -348,6 +348,18 @@ impl<H: Host> ZXController<H> {
         }
     }
 
+    /// Applies a value written to the ULA port (0xFE): border colour, MIC and speaker.
+    /// Takes no emulated time, so snapshot loaders can restore the port state with it
+    pub(crate) fn write_ula_port(&mut self, data: u8) {
+        self.set_border_color(self.frame_clocks, ZXColor::from_bits(data & 0x07));
+        #[cfg(feature = "sound")]
+        {
+            let mic = data & 0x08 != 0;
+            let ear = data & 0x10 != 0;
+            self.mixer.beeper.change_state(ear, mic);
+        }
+    }
+
     pub fn read_7ffd(&self) -> u8 {
         self.current_port_7ffd
     }
@@ -568,13 +580,7 @@ impl<H: Host> Z80Bus for ZXController<H> {
         } else if port & 0xC002 == 0x8000 {
             self.write_ay_port(data);
         } else if port & 0x0001 == 0 {
-            self.set_border_color(self.frame_clocks, ZXColor::from_bits(data & 0x07));
-            #[cfg(feature = "sound")]
-            {
-                let mic = data & 0x08 != 0;
-                let ear = data & 0x10 != 0;
-                self.mixer.beeper.change_state(ear, mic);
-            }
+            self.write_ula_port(data);
         } else if (port & 0x8002 == 0) && (self.machine == ZXMachine::Sinclair128K) {
             self.write_7ffd(data);
         }
